@@ -85,7 +85,10 @@ func c04Sizes(t *Tape, b int) int {
 	}
 }
 
-func c04Run(e *Env, tr string, faults bool) {
+func c04Run(e *Env, tr string, faults bool) { c04RunOpt(e, tr, faults, false) }
+
+// c04RunOpt runs the block-wise workload; with audit it ends with C13's drain-and-audit of both endpoints.
+func c04RunOpt(e *Env, tr string, faults bool, audit bool) {
 	t := e.Tape
 	maxSZX := 7 // 0..6
 	szxA := blockwise.SZX(t.Choose(maxSZX))
@@ -199,6 +202,8 @@ func c04Run(e *Env, tr string, faults bool) {
 	// ---- the two endpoints
 	var apiA ClientAPI
 	var tickA, tickB func(now time.Time)
+	var sizesA, sizesB func() map[string]int
+	var closedA, closedB func() bool
 	var dn *DNet
 	var sa, sb *SimConn
 	ackTO := 2 * time.Second
@@ -224,6 +229,9 @@ func c04Run(e *Env, tr string, faults bool) {
 		connB = epB.CC
 		e.mu.Unlock()
 		tickA, tickB = epA.Tick, epB.Tick
+		sizesA, sizesB = epA.CC.VerifTableSizes, epB.CC.VerifTableSizes
+		closedA = func() bool { return epA.CC.Context().Err() != nil }
+		closedB = func() bool { return epB.CC.Context().Err() != nil }
 		nf = NetFaults{DeliverW: 8}
 		if faults {
 			nf.DropToEP, nf.DropToPeer = t.Choose(3), t.Choose(3)
@@ -247,6 +255,9 @@ func c04Run(e *Env, tr string, faults bool) {
 		connB = epB.CC
 		e.mu.Unlock()
 		tickA, tickB = epA.Tick, epB.Tick
+		sizesA, sizesB = epA.CC.VerifTableSizes, epB.CC.VerifTableSizes
+		closedA = func() bool { return epA.CC.Context().Err() != nil }
+		closedB = func() bool { return epB.CC.Context().Err() != nil }
 		// the injected CSM (Block-Wise-Transfer, Max-Message-Size), right after the real ones
 		csm := EncodeTCP(&WMsg{Code: 0xe1, Token: []byte{0x01}, Opts: []WOpt{UintOpt(OptTCPMaxMsgSize, 65536), {Num: OptTCPBlockWise}}})
 		e.Wait()
@@ -485,6 +496,58 @@ func c04Run(e *Env, tr string, faults bool) {
 		e.Wait()
 	}
 	e.Sleep(130 * time.Second) // every call deadline has passed
+	if audit {
+		// C13: pass the exchange lifetime and the block-wise timeout with ticks, deliver stragglers, then read the tables
+		for _, dt := range []time.Duration{6 * time.Second, 120 * time.Second, 130 * time.Second, time.Second} {
+			e.Sleep(dt)
+			tickA(time.Now())
+			e.Wait()
+			tickB(time.Now())
+			e.Wait()
+			for i := 0; i < 50; i++ {
+				if tr == TrUDP {
+					p := dn.PendingList()
+					if len(p) == 0 {
+						break
+					}
+					dn.Take(p[0])
+					dn.Deliver(p[0])
+				} else {
+					if sa.PendingIn() == 0 && sb.PendingIn() == 0 {
+						break
+					}
+					sa.ReleaseIn(1 << 30)
+					sb.ReleaseIn(1 << 30)
+				}
+				e.Wait()
+			}
+		}
+		e.Sleep(250 * time.Second)
+		tickA(time.Now())
+		e.Wait()
+		tickB(time.Now())
+		e.Wait()
+		live := 0
+		for _, x := range xfers {
+			if x.kind == xObserve && x.started && x.call.Done() {
+				if _, err := x.call.Result(); err == nil {
+					live++
+				}
+			}
+			if x.started {
+				if _, err := x.call.Result(); err != nil {
+					e.NonTrivial()
+				}
+			}
+		}
+		if !closedA() {
+			auditTables(e, "endpoint A", sizesA(), live)
+		}
+		if !closedB() {
+			auditTables(e, "endpoint B", sizesB(), 0)
+		}
+		return
+	}
 	// ---- oracle
 	for _, x := range xfers {
 		if !x.started {
